@@ -711,3 +711,52 @@ func TestVerifC11Concurrent(t *testing.T) {
 		})
 	})
 }
+
+// TestVerifC11ConcurrentNow: the linearizable test-and-set also holds for the entry point that reads the clock
+// itself.  Every round uses a fresh (empty) filter: the first submissions ever are the ones for which a caller that
+// read the clock early and got the lock late must not be taken for a clock that went backwards.
+func TestVerifC11ConcurrentNow(t *testing.T) {
+	c := ev.For("C11")
+	c.Rule("concurrent-now: rounds of G = 2..16 goroutines that submit ONE value through TestAndSetNow (real, monotone clock) to a fresh filter after a common barrier, a second value right behind it; oracle: per value exactly one submission is told 'new'; afterwards both values are reported 'seen'; every round counts as non-trivial; fingerprint = shard, round")
+	rounds := 20000
+	if os.Getenv("VERIF_TIER") == "thorough" {
+		rounds = 300000
+	}
+	shard := os.Getenv("VERIF_SHARD")
+	for r := 0; r < rounds; r++ {
+		f, err := New(3 * time.Hour)
+		if err != nil {
+			t.Fatalf("VIOL[c11-new]: %v", err)
+		}
+		g := 2 + r%15
+		news := make([][2]bool, g)
+		var wg sync.WaitGroup
+		start := make(chan struct{})
+		for i := 0; i < g; i++ {
+			wg.Add(1)
+			go func(i int) {
+				defer wg.Done()
+				<-start
+				news[i][0] = !f.TestAndSetNow([]byte("first-value-of-the-round"))
+				news[i][1] = !f.TestAndSetNow([]byte("second"))
+			}(i)
+		}
+		close(start)
+		wg.Wait()
+		for k := 0; k < 2; k++ {
+			n := 0
+			for i := range news {
+				if news[i][k] {
+					n++
+				}
+			}
+			if n != 1 {
+				t.Fatalf("VIOL[c11-linearizable]: round %d: %d goroutines submitted value #%d through TestAndSetNow to a fresh filter at once: %d were told 'new', want exactly 1", r, g, k, n)
+			}
+		}
+		if !f.TestAndSetNow([]byte("first-value-of-the-round")) || !f.TestAndSetNow([]byte("second")) {
+			t.Fatalf("VIOL[c11-linearizable]: round %d: a value submitted by %d goroutines is not remembered afterwards", r, g)
+		}
+		c.Case(ev.Hash("now", shard, r), true, []string{"concurrent-now"}, nil)
+	}
+}
